@@ -273,7 +273,7 @@ def schemes():
 
 
 def rand_key_tables(rng):
-    pool = [["k", [c, sl]] for c in (1, 2, 3) for sl in 'AB'] + [["n", 0], ["nan", 1], ["nan", 2]]
+    pool = [["k", [c, sl]] for c in (1, 2, 3) for sl in 'AB'] + [["n", 0], ["nan", 1], ["nan", 3]]      # NaN ids 1, 3: python float objects
     sub = rng.sample(pool, rng.choice([3, 4, 6, len(pool)]))
     def t(n):
         return {'cols': ['a'], 'rows': [{'a': rng.choice(sub)} for _ in range(n)]}
@@ -383,7 +383,7 @@ def flush(ctx, obs, meta, final=False):
             m = meta[line - 1]
             case.update({'family': m['family'], 'shape': o['shape'], 'dir': o['dir'], 'hist': m['hist'], 'step': m['step']})
         ctx.violation(clause, case, {'out': o['out'], 'x_after': o['x_after'], 'y_after': o['y_after']})
-    if len(obs) > 7 and not getattr(ctx, '_c02_sampled', False):
+    if len(obs) > 7 and 'op' in obs[7] and not getattr(ctx, '_c02_sampled', False):
         ctx._c02_sampled = True
         ctx.sample({'observation': {k: obs[7][k] for k in ('op', 'x', 'y', 'lk', 'rk', 'mode', 'spelling', 'out')}})
     del obs[:]
@@ -408,6 +408,44 @@ def check_enumeration(hists, what, need_edit):
         raise Machinery('vacuous: %s never enumerated %s' % (what, sorted(want - seen)))
 
 
+def run_keys(ctx, obs, meta):
+    # ---- abstract key cells: TLC's tables over key classes x realisation slots (+ None, NaN), one witness scheme after the other
+    if not ctx.quick:
+        ctx.mc('MC_Join', 'MC_Join_key2.cfg')                   # with coverage; the generator configuration checks the same invariants
+    kcases = ctx.generate('MC_Join', 'MC_Join_gen_key2.cfg')
+    kcases.sort(key=lambda c: json.dumps(c, sort_keys=True))
+    if ctx.quick:
+        kcases = ctx.rng.sample(kcases, 1000)
+    scs = schemes()
+    for k, c in enumerate(kcases):
+        sc = scs[k % len(scs)]
+        run_case(ctx, c['x'], c['y'], k, 2 if ctx.quick else 3, obs, sc.codec(k // len(scs)))
+        flush(ctx, obs, meta)
+        if 0 < c['npairs'] < len(c['x']['rows']) * len(c['y']['rows']):
+            ctx.note(('key', sc.name, (k // len(scs)) % 4, json.dumps([c['x'], c['y']])))
+    for i in range(200 if ctx.quick else 8000):
+        kx, ky = rand_key_tables(ctx.rng)
+        run_case(ctx, kx, ky, i, 2, obs, scs[i % len(scs)].codec(i // len(scs)))
+        flush(ctx, obs, meta)
+    ctx.sample({'key_case': kcases[len(kcases) // 3], 'schemes': [sc.name for sc in scs]})
+
+
+def run_sessions(ctx, obs, meta):
+    # ---- sessions on a pool of caller-owned objects: call ; call and call ; edit ; call breadth-first, then TLC-simulated longer ones
+    ctx.mc('MC_JoinSess', 'MC_JoinSess_quick.cfg' if ctx.quick else 'MC_JoinSess_thorough.cfg', coverage=False)
+    if not ctx.quick:
+        ctx.mc('MC_JoinSess', 'MC_JoinSess_memo.cfg', coverage=False, must_fail='SessionLaw')      # why sessions with edits are enumerated
+    pairs = ctx.generate('MC_JoinSess', 'MC_JoinSess_pairs.cfg' if ctx.quick else 'MC_JoinSess_pairs_t.cfg')
+    pairs.sort(key=lambda h: json.dumps(h, sort_keys=True))
+    free = ctx.generate('MC_JoinSess', 'MC_JoinSess_sim.cfg', simulate=60 if ctx.quick else 1500, depth=14, seed=ctx.seed + 2, workers=1)
+    check_sessions(pairs + free, 'MC_JoinSess', True)
+    for fam, ss in (('session_pairs', pairs), ('session_free', free)):
+        for h in ss:
+            run_session(h, fam, obs, meta)
+            flush(ctx, obs, meta)
+    ctx.sample({'session': pairs[len(pairs) // 2]})
+
+
 def run(ctx):
     ctx.rule = ('TLC enumerates pairs of key tables (<= 2-3 rows a side, 1-2 key columns, keys None/ints/floats/NaN objects/strings/dates); '
                 'the driver decorates each with row ids / shared columns / renamed or computed keys and calls join, *, xor, / in rotating '
@@ -416,6 +454,15 @@ def run(ctx):
                 'operand that is X itself / X.copy() / X[cols] / X(q=..) / a dict of X\'s column lists / an equal / an unrelated table, with call '
                 'plans (13 key plans with equal, different, crossed and computed keys x modes x spellings x join, xor, x*y + x/y, both '
                 'directions, method and operator forms) and in-place edits of key cells between calls; plus random larger histories. '
+                'Keys of large magnitude / unusual realisation cross as ABSTRACT KEY CELLS (class = which key, slot = which realisation; Join.tla KeyEqK): '
+                'TLC enumerates key tables over 3 classes x 2 slots + None + NaN (MC_Join, Shape "key"), the driver makes them concrete with one witness '
+                'scheme after the other (harness/x_join.py: 2^53.., -2^53.., 2^63.., 2^64.., 10^30 / 10^400, nanosecond stamps as int / numpy.int64, '
+                '1 / 1+ulp / 2, float32(0.1) / 0.1, -1 / 0 / -0.0 / 5e-324, 1..3 in every numpy width, datetime / numpy.datetime64 / date) and encodes '
+                'what comes back by the class of its exact value. '
+                'SESSIONS (MC_JoinSess, law JoinSess.tla: a call has no memory and owns nothing of the caller): a pool of caller-owned objects X, Z (tables) '
+                'and Y (table / dict / Dict / DataFrame); TLC enumerates call ; call and call ; edit ; call breadth-first (21 call plans x 6 ordered '
+                'pairs of objects; edits: key cell in place, key column replaced, row appended in place, the last result overwritten in place) and '
+                'simulates longer sessions; the whole pool is read after every step, every step is judged by Trace_Join (StepVerdict). '
                 'Every call is judged by Trace_Join (bag equality with the law-level join). Non-trivial = at least one matching and one non-matching pair.')
     ctx.mc('MergeJoin', 'MergeJoin_fixed.cfg', deadlock=False)
     ctx.mc('MC_Join', 'MC_Join_one2.cfg')
@@ -444,6 +491,8 @@ def run(ctx):
         run_case(ctx, kx, ky, i, 3, obs)
         flush(ctx, obs, meta)
         ctx.note(('rand', i))
+    run_keys(ctx, obs, meta)
+    run_sessions(ctx, obs, meta)
     # ---- one pair of operand objects: every single call (thinned by Stride), then simulated histories with edits, then random ones
     singles = ctx.generate('MC_JoinObj', 'MC_JoinObj_gen1.cfg' if ctx.quick else 'MC_JoinObj_gen1t.cfg')
     check_enumeration(singles, 'MC_JoinObj_gen1', False)
@@ -471,7 +520,17 @@ def run(ctx):
     ctx.sample({'history': sims[len(sims) // 2]})
     flush(ctx, obs, meta, final=True)
     ctx.exhaustive = False
-    ctx.assumptions += ['xor with no key column returns x whole (named deviation XorNoKey)',
+    held = [sc.name for sc in x_join.SCHEMES if sc.held_back]
+    ctx.assumptions += ['abstract key cells: the witnesses of one class are one exact value (fractions.Fraction / datetime / str, asserted when the scheme is built), '
+                        'classes are numbered in the natural order; a returned cell is encoded by the class of its exact value, whatever its type',
+                        'witness schemes held back because today\'s code contradicts the statement on them (reported; VERIF_C02_HELD_BACK=1 runs them): %s - '
+                        'numpy scalars whose own == is lossy (int64 / uint64 / float32 against a float or another width beyond the exact range), '
+                        'pandas.Timestamp against datetime, str subclasses / numpy.str_ against str, numpy.longdouble; bool keys are outside the quantifier' % ', '.join(held),
+                        'sessions: the DataFrame operand holds int columns only (a DataFrame coerces None / mixed columns itself); a pool object is read through its own '
+                        'cells (table: column lists, dict / Dict: lists, DataFrame: Series.tolist()); the reading after a step is the reading before the next one',
+                        'sessions: TLC -coverage is off for MC_JoinSess (as for MC_JoinObj); the enumerated sessions must contain every kind of Y, call plan, ordered pair '
+                        'of objects, spelling, kind of edit per object and a call after a replaced column / an overwritten result for every kind of Y',
+                        'xor with no key column returns x whole (named deviation XorNoKey)',
                         'key cells of the result are compared with the key equality of the statement (1 may come back as 1.0), other cells exactly',
                         'termination of the real calls is observed with a 3 s CPU-time watchdog per call (correct evaluation takes < 5 ms); after 25 timeouts the remaining calls are skipped',
                         'one column per name: a column of the other side that bears the name of a key column of the result is not carried (named deviation KeyShadows; x.join(x, "a", "b") has one column a = the key)',
@@ -482,6 +541,13 @@ def run(ctx):
 
 def replay(ctx, body):
     c = body['case']
+    if 'sess' in c:
+        obs, meta = [], {}
+        run_session(c['sess'], c.get('family', 'session'), obs, meta)
+        bad = ctx.validate('Trace_Join', obs)
+        hit = [b for b in bad if meta[b[0] - 1]['step'] == c['step']]
+        print('replay:', 'REJECTED %s' % bad if hit else 'accepted', str([o['out'] for k, o in enumerate(obs) if meta[k]['step'] == c['step']])[:300])
+        return 1 if hit else 0
     if 'hist' in c:
         obs, meta = [], {}
         run_history(c['hist'], c.get('family', 'history'), obs, meta)
@@ -489,7 +555,10 @@ def replay(ctx, body):
         hit = [b for b in bad if meta[b[0] - 1]['step'] == c['step']]
         print('replay:', 'REJECTED %s' % bad if hit else 'accepted', str([o['out'] for k, o in enumerate(obs) if meta[k]['step'] == c['step']])[:300])
         return 1 if hit else 0
-    o = observe(c['x'], c['y'], c['lk'], c['rk'], c['op'], c['mode'], c['spelling'], c['how'])
+    codec = None
+    if 'scheme' in c:
+        codec = [sc for sc in x_join.SCHEMES if sc.name == c['scheme']][0].codec(c['rot'])
+    o = observe(c['x'], c['y'], c['lk'], c['rk'], c['op'], c['mode'], c['spelling'], c['how'], codec)
     bad = ctx.validate('Trace_Join', [o])
     print('replay:', 'REJECTED %s' % bad if bad else 'accepted', str(o['out'])[:300])
     return 1 if bad else 0
